@@ -4,17 +4,20 @@
 (* hides the history variable `saw' (the invariant over it is checked when the *)
 (* entry is appended: an entry never changes afterwards).                      *)
 (* With Swapped = TRUE, and with KeepLen = TRUE (a recycled buffer keeps the    *)
-(* length of the datagram before), the run must FAIL (the driver requires it). *)
+(* length of the datagram before), and with SessShared = TRUE (the session    *)
+(* data is overwritten by the next datagram) the run must FAIL (the driver     *)
+(* requires it).                                                               *)
 EXTENDS Exchange
 
-CONSTANTS MaxResend
+CONSTANTS MaxResend,
+          Locals        \* the server's local addresses
 
 VARIABLES x, resent
 
 Init == x = XInit /\ resent = 0
 
 Next ==
-  \/ \E c \in Clients : CanSend(x, c) /\ x' = Send(x, c, c) /\ UNCHANGED resent        \* client c's request has c octets
+  \/ \E c \in Clients : \E a \in (IF c = 1 THEN {1} ELSE Locals) : CanSend(x, c) /\ x' = Send(x, c, c, a) /\ UNCHANGED resent     \* client c's request has c octets; w.l.o.g. client 1 talks to address 1
   \/ \E c \in Clients : CanResend(x, c) /\ resent < MaxResend /\ x' = Resend(x, c) /\ resent' = resent + 1
   \/ \E b \in Buffers, c \in Clients : CanRecv(x, b, c) /\ x' = Recv(x, b, c) /\ UNCHANGED resent
   \/ \E t \in 1..Len(x.tasks) :
